@@ -457,10 +457,7 @@ def importStatementName (st : State) (id : Str) (as : Option Str) (ty : ImportTy
     | .ident x =>
       match st.localItem x with
       | .error e => .error e
-      | .ok item =>
-        match st.graph.kindOf item with
-        | .inst (some iid) _ => .ok iid
-        | _ => .ok id
+      | .ok item => .ok ((st.graph.kindOf item).importNameOr id)
 
 /-- `import_statement`: "Determine the kind for the item to import" -/
 def importStatementKind (st : State) (ty : ImportTy) : Except Diag (State × Kind) :=
@@ -516,12 +513,15 @@ def Graph.isDefinition (g : Graph) (n : Nat) : Bool :=
   | some { kind := .defn _, .. } => true
   | _ => false
 
+/-- the first check of `export_item`: the name is bound (root scope) to a definition -/
+def State.exportConflict (st : State) (name : Str) : Bool :=
+  match alGet name st.scope with
+  | some n => st.graph.isDefinition n
+  | none => false
+
 /-- `AstResolver::export_item`: `ExportConflict` when the name is bound (root scope) to a definition -/
 def exportItem (st : State) (item : Nat) (name : Str) : Except Diag State :=
-  let conflict := match alGet name st.scope with
-    | some n => st.graph.isDefinition n
-    | none => false
-  if conflict then .error (.exportConflict name)
+  if st.exportConflict name then .error (.exportConflict name)
   else
     match st.graph.export item name with
     | .error e => .error e
